@@ -3,43 +3,40 @@ import MythVerif.Proofs.WsQueueTsoTac
 namespace MythVerif.WsqTso
 open MythVerif.Wsq
 
-set_option maxHeartbeats 4000000 in
 theorem f_T_baseI_pq (s : St) (p : Pid) (e0 : Elem) (ok : Bool) : Inv s → s.opc = .pq → s.lock = .thief p →
     s.bufT p = [.baseI (s.lb - 1) e0] → s.tpc p = .tp4 ok → s.ptr (s.lb - 1) = some e0 →
     Inv (applySto { s with bufT := upd s.bufT p [] } (.baseI (s.lb - 1) e0)) := by
   intro h hopc hl h0 h1 h2
   have hmw := mwin_cons s.A s.ptr s.lb s.top _ e0 h.mwin h2
   simp only [applySto]
-  cases h; simp only [hopc, ownerLocked, carry, resetting, ownerFlight] at *
+  simp only [hopc, resetting] at hmw
+  tso_coreO h hopc [tp3, tp4, carryC]
   constructor
-  all_goals (try simp only [ownerLocked, carry, resetting, ownerFlight, upd_apply, applySto])
-  case mwin => exact hmw
-  tso_rest
+  case mwin => simp only [hopc, resetting, upd_apply, applySto]; exact hmw
+  tso_goalsO h hopc
 
-set_option maxHeartbeats 4000000 in
 theorem f_T_baseI_po1 (s : St) (p : Pid) (e0 : Elem) (ok : Bool) : Inv s → s.opc = .po1 → s.lock = .thief p →
     s.bufT p = [.baseI (s.lb - 1) e0] → s.tpc p = .tp4 ok → s.ptr (s.lb - 1) = some e0 →
     Inv (applySto { s with bufT := upd s.bufT p [] } (.baseI (s.lb - 1) e0)) := by
   intro h hopc hl h0 h1 h2
   have hmw := mwin_cons s.A s.ptr s.lb s.top _ e0 h.mwin h2
   simp only [applySto]
-  cases h; simp only [hopc, ownerLocked, carry, resetting, ownerFlight] at *
+  simp only [hopc, resetting] at hmw
+  tso_coreO h hopc [tp3, tp4, carryC]
   constructor
-  all_goals (try simp only [ownerLocked, carry, resetting, ownerFlight, upd_apply, applySto])
-  case mwin => exact hmw
-  tso_rest
+  case mwin => simp only [hopc, resetting, upd_apply, applySto]; exact hmw
+  tso_goalsO h hopc
 
-set_option maxHeartbeats 4000000 in
 theorem f_T_baseI_pof (s : St) (p : Pid) (e0 : Elem) (ok : Bool) (t) : Inv s → s.opc = .pof t → s.lock = .thief p →
     s.bufT p = [.baseI (s.lb - 1) e0] → s.tpc p = .tp4 ok → s.ptr (s.lb - 1) = some e0 →
     Inv (applySto { s with bufT := upd s.bufT p [] } (.baseI (s.lb - 1) e0)) := by
   intro h hopc hl h0 h1 h2
   have hmw := mwin_cons s.A s.ptr s.lb s.top _ e0 h.mwin h2
   simp only [applySto]
-  cases h; simp only [hopc, ownerLocked, carry, resetting, ownerFlight] at *
+  simp only [hopc, resetting] at hmw
+  tso_coreO h hopc [tp3, tp4, pof]
   constructor
-  all_goals (try simp only [ownerLocked, carry, resetting, ownerFlight, upd_apply, applySto])
-  case mwin => exact hmw
-  tso_rest
+  case mwin => simp only [hopc, resetting, upd_apply, applySto]; exact hmw
+  tso_goalsO h hopc
 
 end MythVerif.WsqTso
